@@ -42,7 +42,8 @@ def _solve(args):
     try:
         ctx = z3.Context()
         last = ("unknown", "")
-        for tier, cfg, share in PLAN:
+        plan = [(0, {}, 0.5), (0, EM, 0.5)] if expect_sat else PLAN
+        for tier, cfg, share in plan:
             if smts[tier] is None:
                 continue
             s = z3.Solver(ctx=ctx)
